@@ -355,14 +355,14 @@ def roles_unit(isa):
         ex = Engine([REPO + "/" + f for f in ROLE_FILES])
         ex.no_init |= {"MachineModel", "ParserX86ATT", "ParserAArch64"}
         import itertools
-        for nops, found, mempos, equal, idiom in itertools.product((1, 2, 3), ("full", "suffix", "regform", "none"), (None, "last", "first"), (False, True), (False, True)):
-            if found == "regform" and mempos is None:
+        for nops, found, mempos, equal, idiom in itertools.product((1, 2, 3), ("full", "suffix", "regform", "regform-suffix", "none"), (None, "last", "first"), (False, True), (False, True)):
+            if found.startswith("regform") and mempos is None:
                 continue
             if equal and (mempos is not None or nops == 1):
                 continue
             if idiom and found == "none":
                 continue
-            if nops == 3 and (mempos == "first" or found == "suffix"):
+            if nops == 3 and (mempos == "first" or found in ("suffix", "regform-suffix")):
                 continue  # (covered with 1 and 2 operands; keeps the number of paths manageable)
             mi = None if mempos is None else (nops - 1 if mempos == "last" else 0)
             srcb = [z3.Bool(f"src{i}") for i in range(nops)]
@@ -398,6 +398,8 @@ def roles_unit(isa):
                         return entry
                     if found == "regform" and wild and not short:
                         return entry
+                    if found == "regform-suffix" and wild and short:
+                        return entry
                     return None
 
                 ex.abstract["get_instruction"] = get_instruction
@@ -416,7 +418,7 @@ def roles_unit(isa):
                     return False
                 inl = lambda lst, o: any(x is o for x in lst)
                 g = []
-                has_entry = found in ("full", "suffix") or (found == "regform")
+                has_entry = found in ("full", "suffix", "regform", "regform-suffix")
                 if has_entry and idiom and (equal or nops == 1):  # (a single operand is trivially "all operands equal")
                     for o in ops + hidden:
                         g.append(z3.BoolVal(inl(so["destination"], o) and not inl(so["source"], o) and not inl(so["src_dst"], o)))
